@@ -96,6 +96,10 @@ Definition dispatch (f : bytes) (a : list bytes) : list bytes :=
                          | Some fl => [bs "ok"; denote_case fl (arg 1 a) (denv ev)]
                          | None => [bs "decode-ast"] end
     | _, _ => [bs "decode-sexp"] end
+  else if isf f "classify" then
+    (* args: element name.  reply: block / void as spec/Denote.v classifies the name, block / void as the generator model (model/Gen.v)
+       does - the harness compares them with the live parser's IsBlockElement / IsVoidElement for every name of the vocabulary *)
+    [b2 (Denote.block_name (arg 0 a)); b2 (Denote.void_name (arg 0 a)); b2 (Gen.is_block_name (arg 0 a)); b2 (Gen.is_void_name (arg 0 a))]
   else [bs "?"].
 
 Extraction "model.ml" dispatch.
